@@ -143,6 +143,29 @@ def readonly_census():
     return dict(occurrences=found, unexpected=unexpected)
 
 
+def filelock_census():
+    """frame condition behind C13: the advisory-lock API of fs4 (lock_exclusive / lock_shared / try_lock_* / unlock) is used
+    nowhere in non-test code except inside DBInner::open, the function whose contract says when the lock is taken and which
+    handle keeps it.  Any other occurrence (a Drop impl that unlocks, a second locking site) makes the property undecided."""
+    import glob
+    from rsrc import line_of
+    c = gen.Contract('DBInner_open')
+    S0 = gen.source(c.src_file)
+    loc = S0.find_fn(c.fn_spec)
+    found, unexpected = [], []
+    for f in sorted(glob.glob(os.path.join(gen.REPO, 'src', '*.rs'))):
+        rel = os.path.relpath(f, gen.REPO)
+        S = gen.source(rel)
+        for m in re.finditer(r'\b(lock_exclusive|lock_shared|try_lock_exclusive|try_lock_shared|unlock)\s*\(', S.masked):
+            if S.in_test(m.start()):
+                continue
+            ln = line_of(S.text, m.start())
+            found.append('%s:%d %s' % (rel, ln, m.group(1)))
+            if not (rel == c.src_file and loc['body_open'] <= m.start() <= loc['body_close']):
+                unexpected.append('%s:%d %s' % (rel, ln, m.group(1)))
+    return dict(occurrences=found, unexpected=unexpected)
+
+
 def main():
     ap = argparse.ArgumentParser()
     ap.add_argument('prop')
@@ -337,6 +360,10 @@ def main():
         census = readonly_census()
         if census['unexpected']:
             undecided.append('census: Error::ReadOnlyTx is produced outside the nine guards: %s' % census['unexpected'])
+    if P.get('census') == 'filelock':
+        census = filelock_census()
+        if census['unexpected']:
+            undecided.append('census: the advisory-lock API is used outside DBInner::open: %s' % census['unexpected'])
 
     # verdict
     wall = time.time() - t0
